@@ -332,9 +332,9 @@ func VH_C02_WriteRead() {
 		if (k+r)%2 == 0 {
 			sa.WebVTTLines = 3
 			sa.WebVTTWidth = "40%"
-		} else {
+		} else if k%6 != 1 {
 			sa.WebVTTScroll = "up"
-		}
+		} // else: a region without any setting (what a TTML region without origin/extent becomes): it is still defined
 		s.Regions[id] = &Region{ID: id, InlineStyle: sa}
 	}
 	if (k/3)%2 == 1 {
